@@ -17,7 +17,7 @@ pub fn case_seed(base: u64, property: &str, index: u64) -> u64 {
 
 /// Runs one case on a fresh thread (proc-macro2 keeps a thread-local source map that grows with
 /// every parse; a short-lived thread keeps workers from bloating) and evaluates its oracle.
-pub fn run_case(scratch: &mut Scratch, case: &Case, index: u64) -> (Verdict, CaseReport) {
+pub fn run_case(scratch: &mut Scratch, case: &Case, index: u64) -> Option<(Verdict, CaseReport)> {
     std::thread::scope(|s| {
         std::thread::Builder::new()
             .stack_size(256 << 20)
@@ -45,7 +45,7 @@ pub fn run_case(scratch: &mut Scratch, case: &Case, index: u64) -> (Verdict, Cas
             })
             .expect("spawn case thread")
             .join()
-            .expect("case thread panicked outside catch_unwind")
+            .ok()
     })
 }
 
@@ -88,8 +88,29 @@ pub fn worker_main(args: WorkerArgs) {
             let _ = out.flush();
         }
         let seed = case_seed(args.seed, &args.property, index);
-        let case = crate::props::generate(&args.property, seed, args.tier);
-        let (verdict, report) = run_case(&mut scratch, &case, index);
+        // A panic in the harness's own code (generator, oracle) must never look like a crash
+        // of pyxis: it is reported as a harness error and the check exits 2.
+        let generated = std::panic::catch_unwind(|| {
+            crate::props::generate(&args.property, seed, args.tier)
+        });
+        let case = match generated {
+            Ok(c) => c,
+            Err(_) => {
+                let mut out = stdout.lock();
+                let _ = writeln!(out, "H {index} the case generator panicked");
+                let _ = out.flush();
+                std::process::exit(2);
+            }
+        };
+        let (verdict, report) = match run_case(&mut scratch, &case, index) {
+            Some(x) => x,
+            None => {
+                let mut out = stdout.lock();
+                let _ = writeln!(out, "H {index} the oracle panicked");
+                let _ = out.flush();
+                std::process::exit(2);
+            }
+        };
         let mut out = stdout.lock();
         if let Verdict::Violation { .. } = verdict {
             let path = format!(
